@@ -678,8 +678,8 @@ def main(tier="quick", seed=0):
     th.start()
 
     # (G) cases from TLC; the residue classes depend on the seed
-    env = {"GEN_CM_MOD": 40 if quick else 6, "GEN_CM_REM": seed, "GEN_MOD": 48 if quick else 3,
-           "GEN_WRAP_MOD": 14 if quick else 2, "GEN_REM": 7 * seed + 1}
+    env = {"GEN_CM_MOD": 40 if quick else 12, "GEN_CM_REM": seed, "GEN_MOD": 48 if quick else 10,
+           "GEN_WRAP_MOD": 14 if quick else 6, "GEN_REM": 7 * seed + 1}
     cases = chk.generate("MC_Classify", "Classify_gen.cfg" if quick else "Classify_gen_thorough.cfg", env=env)
     if not cases:
         raise _tlc.MachineryError("the generator produced no case")
@@ -692,13 +692,11 @@ def main(tier="quick", seed=0):
         key = (c["K"], tuple(c["decl"]), c["dflt"], repr(c["cm"]), tuple(c["seen"]), c["scen"], c["prior"][0])
         scen.setdefault(key, c)
     keys = sorted(scen)
-    pick = rng.permutation(len(keys))[: (160 if quick else 2500)]
+    pick = rng.permutation(len(keys))[: (160 if quick else 1500)]
     all_enc = ["int", "float", "str", "idx"]
     for n, i in enumerate(pick):
         items.append(("scenario", scen[keys[i]], int(rng.integers(0, 2 ** 31)), seed, all_enc[n % 4]))
-    import sys, time as _t; _t0=_t.time(); print("DBG gen done", _t0-chk.t0, file=sys.stderr)
     out = pmap(_work, items)
-    print("DBG replay", _t.time()-_t0, file=sys.stderr)
     traces = []
     for tr, n in out:
         traces.extend(tr)
@@ -713,9 +711,7 @@ def main(tier="quick", seed=0):
     chk.sample({"numeric_trace": {k: v for k, v in num[len(num) // 2].items()}})
     chk.validate("ClassifyTrace", traces, describe=_describe, key_of=_key_of)
 
-    print("DBG validated", _t.time()-_t0, file=sys.stderr)
     th.join()
-    print("DBG mc joined", _t.time()-_t0, file=sys.stderr)
     if "err" in mc:
         raise mc["err"]
     res = mc["res"]
